@@ -147,6 +147,95 @@ def conditional_programs(ctx, n):
     return out
 
 
+def conversion_programs(ctx, n):
+    """functions in which a float variable (local, parameter, global) is initialised or assigned from an INT expression -- the compiler accepts this
+    and inserts no cast -- and is then divided / multiplied / compared as a float.  The source says the variable is a float, so the specification side
+    is given the same function with every such int expression e written (e) * 1.0 (an exact conversion); the implementation gets the original text.
+    Returns (spec module, calls, text): the lowering comparison is skipped for these (the two sources differ by construction)."""
+    from nslgen import Module, Global, Func, Arg, Block, Ret, B, V, Decl, ES, A, P, F, I
+    rng = ctx.rng
+    out = []
+    for k in range(n):
+        g = gentyped.TGen(rng, floats=False, arrays=False, structs=False, calls=False, side_effects=False, max_depth=1)
+        genv = gentyped.Env(); genv.vars = {"g0": "int"}
+        env = gentyped.Env(genv); env.bounds = {}
+        params = [("int", "a"), ("int", "b"), ("float", "c")]
+        env.vars["a"] = "int"; env.vars["b"] = "int"
+        def conv(e, spec):
+            return B("*", P(e), F("1.0")) if spec else e
+        ie = [tg_expr(g, env, "int") for _ in range(4)]
+        shape = k % 5
+        def body(spec):
+            b = [Decl("float", "x", conv(ie[0], spec))]
+            if shape in (0, 3):
+                b.append(Decl("float", "y", conv(ie[1], spec)))
+            else:
+                b.append(Decl("float", "y")); b.append(ES(A(V("y"), conv(ie[1], spec))))
+            if shape == 1:
+                b.append(ES(A(V("g1"), conv(ie[2], spec)))); b.append(Decl("float", "q", B("/", V("x"), V("g1"))))
+            elif shape == 2:
+                b.append(ES(A(V("c"), conv(ie[2], spec)))); b.append(Decl("float", "q", B("/", V("c"), V("y"))))
+            elif shape == 3:
+                b.append(ES(A(V("x"), V("y"), "/="))); b.append(Decl("float", "q", V("x")))
+            else:
+                b.append(Decl("float", "q", B("/", V("x"), V("y"))))
+            b.append(ES(A(V("g1"), B("+", V("q"), B("*", V("x"), F("0.5"))))))
+            b.append(Ret(B(rng2.choice(["+", "-", "*"]), V("q"), V("y"))))
+            return b
+        import random
+        seed = rng.randrange(1 << 30)
+        rng2 = random.Random(seed); bi = body(False)
+        rng2 = random.Random(seed); bs = body(True)
+        mk = lambda b: Module([Global("int", "g0"), Global("float", "g1"), Func("f0", [Arg(t, nm) for t, nm in params], "float", Block(b), export=True)])
+        calls = [{"fn": "f0", "args": {"a": rng.randrange(-9, 10), "b": rng.choice([2, 3, 4, 5, -2, 7, 1]), "c": rng.choice([0.5, 2.0, -1.5])},
+                  "globals": {"g0": rng.randrange(-4, 7), "g1": 1.5} if c == 0 else {}, "read_globals": ["g0", "g1"]} for c in range(3)]
+        text, _ = nslgen.render(mk(bi), ["canonical", "dense", "wild", "lines"][k % 4], rng)
+        out.append((mk(bs), calls, text))
+    return out
+
+
+def targeted_programs(ctx):
+    """a fixed corpus of shapes that random generation reaches only now and then (each was the failing input of an earlier seeded change):
+    locals declared without initialiser inside loop bodies and read before they are written (zero again at every execution of the declaration);
+    equality and relational operators mixed without parentheses; division and remainder with every sign combination; nested compound assignments"""
+    from nslgen import Module, Global, Func, Arg, Block, Ret, B, V, Decl, ES, A, I, F, For, While, Do, Pre, Idx, If, _B
+    out = []
+    def loop(kind, body):
+        if kind == "for":
+            return [For(Decl("int", "i", I(1)), B("<=", V("i"), V("n")), Pre("++", "i"), Block(body))]
+        if kind == "while":
+            return [Decl("int", "i", I(1)), While(B("<=", V("i"), V("n")), Block(body + [ES(Pre("++", "i"))]))]
+        return [Decl("int", "i", I(1)), Do(Block(body + [ES(Pre("++", "i"))]), B("<=", V("i"), V("n")))]
+    for kind in ("for", "while", "do"):
+        scalar = [Decl("int", "acc"), ES(A(V("acc"), V("i"), "+=")), ES(A(V("total"), B("+", B("*", V("total"), I(10)), V("acc"))))]
+        arr = [Decl("int", "a", None, dims=[3]), ES(A(Idx(V("a"), B("%", V("i"), I(3))), B("+", B("+", Idx(V("a"), B("%", V("i"), I(3))), V("i")), I(1)))),
+               ES(A(V("total"), B("+", B("*", V("total"), I(10)), Idx(V("a"), B("%", V("i"), I(3))))))]
+        flt = [Decl("float", "w"), ES(A(V("w"), B("+", V("w"), F("0.5")))), ES(A(V("total"), B("+", V("total"), B(">", V("w"), F("0.75")))))]
+        for nm, body in (("scalar", scalar), ("array", arr), ("float", flt)):
+            m = Module([Global("int", "total"), Func("f", [Arg("int", "n")], "int", Block([ES(A(V("total"), I(0)))] + loop(kind, body) + [Ret(V("total"))]), export=True)])
+            calls = [{"fn": "f", "args": {"n": n_}, "globals": {"total": 0} if c == 0 else {}, "read_globals": ["total"]} for c, n_ in enumerate((3, 1, 4))]
+            out.append((m, calls))
+    # comparison chains written without parentheses (the AST nests them as the grammar groups them: relational binds tighter than equality, both left-associative)
+    rel, eq = ["<", "<=", ">", ">="], ["==", "!="]
+    for e_ in eq:
+        for r_ in rel:
+            shapes_ = [B(e_, V("a"), B(r_, V("b"), V("c"))),                      # a == b < c
+                       B(e_, B(r_, V("a"), V("b")), V("c")),                      # a < b == c
+                       B(e_, B(r_, V("a"), V("b")), B(r_, V("c"), V("d")))]      # a < b == c < d
+            for sh in shapes_:
+                m = Module([Func("f", [Arg("int", x) for x in "abcd"], "int", Block([Ret(sh)]), export=True)])
+                calls = [{"fn": "f", "args": dict(zip("abcd", v)), "globals": {}, "read_globals": []} for v in ((-2, -2, 2, 0), (1, 0, 1, 1), (0, 1, 0, 2))]
+                out.append((m, calls))
+    # signs of / and %
+    m = Module([Func("q", [Arg("int", "a"), Arg("int", "b")], "int", Block([Ret(B("+", B("*", B("/", V("a"), V("b")), I(100)), B("%", V("a"), V("b"))))]), export=True)])
+    out.append((m, [{"fn": "q", "args": {"a": a_, "b": b_}, "globals": {}, "read_globals": []} for a_, b_ in ((7, 2), (-7, 2), (7, -2), (-7, -2), (1, 3), (-1, 3))]))
+    res = []
+    for k, (m, calls) in enumerate(out):
+        text, _ = nslgen.render(m, ["canonical", "dense", "wild", "lines"][k % 4], ctx.rng)
+        res.append((m, calls, text))
+    return res
+
+
 def tg_expr(g, env, t):
     return g.expr(env, t, 2, pure=True)
 
@@ -162,7 +251,7 @@ def run(ctx):
     except TranslatorAbort as e:
         ctx.broken.append("translator T3/T4/T5 (VM arms, FromOperation, operator maps) aborted: %s" % e)
         ctx.obligations.append({"name": "T345.translate", "ok": False})
-    progs = gen_programs(ctx, 160 if ctx.tier == "quick" else 3000)
+    progs = targeted_programs(ctx) + gen_programs(ctx, 160 if ctx.tier == "quick" else 3000)
     nret = 60 if ctx.tier == "quick" else 1500
     ret_from = len(progs)
     progs = progs + return_programs(ctx, nret)
@@ -170,14 +259,18 @@ def run(ctx):
     progs = progs + straight_programs(ctx, 60 if ctx.tier == "quick" else 1500)
     flow_from = len(progs)
     progs = progs + conditional_programs(ctx, 60 if ctx.tier == "quick" else 1500)
+    conv_from = len(progs)
+    progs = progs + conversion_programs(ctx, 40 if ctx.tier == "quick" else 600)
     jobs = [vmcases.job(text, calls, optimize=False) for (m, calls, text) in progs]
     res = ctx.run_impl("compile_impl.py", jobs, nworkers=16)
     blocks, meta, direct_bad = [], [], []
     for k, ((m, calls, text), r) in enumerate(zip(progs, res)):
         if not r["accept"] or "ir" not in r or "calls" not in r:
             direct_bad.append((text, r)); continue
-        d, e = vmcases.case_block(k, m, r, calls)
-        if k >= flow_from:
+        d, e = vmcases.case_block(k, m, r, calls, with_ir=(k < conv_from))
+        if k >= conv_from:
+            pass
+        elif k >= flow_from:
             e = "(%s + 1000 * (200000000 + flow_case2 M_%d))" % (e, k)
         elif k >= straight_from:
             e = "(%s + 1000 * (100000000 + straight_case M_%d))" % (e, k)
@@ -226,7 +319,7 @@ def run(ctx):
                        "assignment, ++/--, if/else, for/while/do with break/continue, early return, overloaded and recursive helper calls) in four layouts, three "
                        "invocations each with random arguments and globals; the real IR is dumped and (i) compared for equality with the lowering model's IR, "
                        "(ii) executed by the VM model, (iii) the source is executed by the reference semantics; all three compared with the real VM's results inside Coq. "
-                       "Every program is distinct (by text) and counted non-trivial (contains control flow or calls). Plus modules of functions with nested if / if-else statements over assignments (the fragment of the conditional-lowering theorem), of straight-line functions (declarations, assignments, return) and of functions `return <pure scalar expression>;` "
+                       "Every program is distinct (by text) and counted non-trivial (contains control flow or calls). Plus modules of functions with nested if / if-else statements over assignments (the fragment of the conditional-lowering theorem), of straight-line functions (declarations, assignments, return), of functions in which float variables are initialised / assigned from int expressions (no cast is inserted; the specification is given the explicit conversion) and of functions `return <pure scalar expression>;` "
                        "(the fragment of the end-to-end theorem): for each, the boolean fragment test is evaluated inside Coq on the source AST and the same three-way comparison is made.")
     ctx.cov["samples"] = [{"source": t[:600], "calls": c, "impl": r["calls"]} for t, c, r in meta[:2]]
     stats["return_expression_functions"] = frag
